@@ -215,6 +215,15 @@ def gen_obj(r, depth, width, allow_obj_in_cont=True, torch_ok=True, names=None):
             [[kk, gen_value(r, depth, False, max(2, width - 1), allow_obj_in_cont, torch_ok)] for kk in keys]]
 
 
+def gen_hist(r, rounds=None):
+    """an OBJECT HISTORY ACROSS SAVES: after the first save the same live graph is changed in place (impl_C01.mutate, driven
+    by `seed`; each value is touched with probability p) and saved again, `rounds` times: onto the same target (mode 'o')
+    or a new one (any store / compression / target type / mode)"""
+    n = rounds or r.choice([1, 1, 2])
+    return {"seed": r.randrange(2 ** 32), "p": r.choice([0.25, 0.4, 0.6]),
+            "rounds": [{"target": r.choice(["same", "new", "new"]), "cfg": gen_cfg(r)} for _ in range(n)]}
+
+
 def gen_cfg(r):
     return {"store": r.choice(["zip", "dir"]), "compression": r.choice([None, 0, 1, 2, 3, 4, 5, 6, 7, 8, 9]),
             "as_path": r.random() < 0.5, "mode": r.choice(["w", "o"])}
@@ -584,7 +593,8 @@ def shrink(case, key, budget=40):
             trial.append(cc)
         budget -= len(trial)
         results = list(pool().map(run_case, trial))
-        hit = next((t for t, r in zip(trial, results) if any(k == key for k, _ in r["diffs"])), None)
+        hit = next((t for t, r in zip(trial, results)
+                    if any(k == key for k, _ in list(r["diffs"]) + [d for h in r.get("hist", []) for d in h["diffs"]])), None)
         if hit is None:
             break
         best = hit
@@ -593,4 +603,4 @@ def shrink(case, key, budget=40):
 
 def case_hash(case):
     return hashlib.sha1(json.dumps([case["spec"], case["cfg"], case.get("skip_save_names"), case.get("skip_save_types"),
-                                    case.get("skip_load_names"), case.get("skip_load_types"), case.get("prev_spec")], sort_keys=True, default=str).encode()).hexdigest()
+                                    case.get("skip_load_names"), case.get("skip_load_types"), case.get("prev_spec"), case.get("hist")], sort_keys=True, default=str).encode()).hexdigest()
